@@ -38,7 +38,9 @@ META = dict(
                  "same oracles but may return ERROR",
                  "monotonic energy decrease and absence of ERROR are only judged while the dense residual is "
                  ">= 1e-8 (|A| max|x| + |b|): once CG has converged numerically (e.g. start at the exact "
-                 "solution with an unattainable tolerance) its steps are rounding noise"],
+                 "solution with an unattainable tolerance) its steps are rounding noise; iterates that "
+                 "overflow in that phase end the judgement of the run (observed: CG on a 1x1 system driven "
+                 "on by a level-3 DeltaEnergyController blows up to inf after the exact solve)"],
     need=["energy_consistency_checks", "controller_decisions", "converged_claims_verified",
           "inversion_enabler_solutions", "nstep_termination_checks", "cg_runs"],
     quick=dict(cases=800, workers=6, budget_s=80),
@@ -159,6 +161,7 @@ class RunJudge:
         self.seen = set()
         self.last_shadow = None
         self.judged_all = True
+        self.nonfinite = False
 
     def viol(self, key, what, **w):
         if key in self.seen:
@@ -174,6 +177,20 @@ class RunJudge:
         """dense re-evaluation of one observed energy; returns the interval dict"""
         ck = self.ck
         x = self.vec(energy.position)
+        with np.errstate(all="ignore"):
+            finite = bool(np.all(np.isfinite(x)) and np.isfinite(cs.nrm(x)) and
+                          np.all(np.isfinite(self.A @ x)) and np.isfinite(np.vdot(x, self.A @ x)))
+        if not finite or self.nonfinite:
+            # overflowing iterates: only tolerated after numerical convergence (noise-driven breakdown)
+            S = self.normA * self.xmax + self.normb + 1e-300
+            if not self.nonfinite:
+                self.nonfinite = True
+                ck.hit("nonfinite_iterates_runs")
+                if not (self.res and min(self.res) < 1e-8 * S):
+                    self.viol(f"cg-nonfinite-iterate:{self.site}",
+                              f"iterate {k} is not finite although the residual never came near the "
+                              "attainable accuracy")
+            return None
         self.xmax = max(self.xmax, cs.nrm(x))
         Ed, gd, Emag = dense_energy(self.A, self.b, x)
         S = self.normA * self.xmax + self.normb + 1e-300
@@ -219,6 +236,9 @@ class RunJudge:
         for k, ev in enumerate(events):
             q = self.energy_event(k, ev["energy"], self.how(k))
             nev += 1
+            if q is None:
+                self.judged_all = False
+                continue
             exp_meth = "start" if k == 0 else "check"
             if ev["meth"] != exp_meth:
                 self.viol(f"controller-protocol:{self.site}",
@@ -300,7 +320,8 @@ def judge_return(J, events, energy, status, hpd, ic):
         return
     last = events[-1]
     # the returned energy must be consistent with its own position as well
-    J.energy_event(len(events), energy, "returned")
+    if J.energy_event(len(events), energy, "returned") is None:
+        return
     J.Ed.pop()
     res = J.res.pop()
     if last["status"] == CONV:
